@@ -143,23 +143,26 @@ class Exporter:
         raise Unsupported(f"expression node {cname}")
 
     def sref(self, node):
-        '''`s%b%c(i)` of a scalar structure -> access to the flattened variable
-        "s%b%c" (decls() declares one variable per leaf component).'''
+        '''`s%b%c(i)` -> access to the flattened variable "s%b%c" (decls() declares one
+        variable per leaf component).  For arrays of structures the indices of
+        every level are concatenated: `g(k)%data(i)` -> "g%data"(k, i), declared
+        with the dimensions of g followed by those of data.'''
         N, _ = _imports()
         name = node.symbol.name.lower()
-        mem = node.member
+        idx = []
         if isinstance(node, N.ArrayOfStructuresReference):
-            raise Unsupported("array of structures")
+            idx += [self.index(c) for c in node.indices]
+        mem = node.member
         while True:
             name += "%" + mem.name.lower()
-            if isinstance(mem, N.StructureMember) and not hasattr(mem, "indices"):
+            if hasattr(mem, "indices"):
+                idx += [self.index(c) for c in mem.indices]
+            if hasattr(mem, "member"):
                 mem = mem.member
                 continue
-            if hasattr(mem, "member"):
-                raise Unsupported("array of structures member")
             break
-        if isinstance(mem, N.ArrayMember):
-            return {"k": "aref", "name": name, "idx": [self.index(c) for c in mem.indices]}
+        if idx:
+            return {"k": "aref", "name": name, "idx": idx}
         return {"k": "ref", "name": name}
 
     def index(self, node):
@@ -449,13 +452,21 @@ class Exporter:
             if self.skip_opaque_symbols and not isinstance(
                     sym.datatype, (S.ScalarType, S.ArrayType)):
                 continue      # e.g. PSyData objects; a reference to one stays undeclared
+            stype, pre = None, []
             if isinstance(sym.datatype, S.DataTypeSymbol) and \
                     isinstance(sym.datatype.datatype, S.StructureType):
+                stype = sym.datatype.datatype
+            elif isinstance(sym.datatype, S.ArrayType) and \
+                    isinstance(sym.datatype.intrinsic, S.DataTypeSymbol) and \
+                    isinstance(sym.datatype.intrinsic.datatype, S.StructureType):
+                stype = sym.datatype.intrinsic.datatype
+                pre = self._dims(sym.datatype.shape, sym.name)
+            if stype is not None:
                 if sym.is_import or sym.is_unresolved or sym.initial_value is not None:
                     raise Unsupported("structure symbol " + sym.name)
                 is_input = sym.is_argument or not sym.is_automatic
-                out.extend(self._flatten(sym.name.lower(), sym.datatype.datatype,
-                                         "in" if is_input else "poison", bool(sym.is_argument)))
+                out.extend(self._flatten(sym.name.lower(), stype,
+                                         "in" if is_input else "poison", bool(sym.is_argument), pre))
                 continue
             if sym.is_import or sym.is_unresolved:
                 raise Unsupported("imported/unresolved symbol " + sym.name)
@@ -482,24 +493,37 @@ class Exporter:
             out.append(d)
         return out, prelude
 
-    def _flatten(self, prefix, stype, init, is_arg):
+    @staticmethod
+    def _dims(shape, name):
+        _, S = _imports()
+        dims = []
+        for dim in shape:
+            if not isinstance(dim, S.ArrayType.ArrayBounds):
+                raise Unsupported("shape of " + name)
+            lo, hi = const_int(dim.lower), const_int(dim.upper)
+            if lo is None or hi is None:
+                raise Unsupported("non-literal bound of " + name)
+            dims.append([lo, hi])
+        return dims
+
+    def _flatten(self, prefix, stype, init, is_arg, pre=()):
         _, S = _imports()
         res = []
         for cname, comp in stype.components.items():
             dt = comp.datatype
             name = prefix + "%" + cname.lower()
             if isinstance(dt, S.DataTypeSymbol) and isinstance(dt.datatype, S.StructureType):
-                res.extend(self._flatten(name, dt.datatype, init, is_arg))
+                res.extend(self._flatten(name, dt.datatype, init, is_arg, pre))
                 continue
-            d = {"name": name, "ty": _ty(dt), "dims": [], "init": init, "arg": is_arg}
+            if isinstance(dt, S.ArrayType) and isinstance(dt.intrinsic, S.DataTypeSymbol):
+                if not isinstance(dt.intrinsic.datatype, S.StructureType):
+                    raise Unsupported("component type of " + name)
+                res.extend(self._flatten(name, dt.intrinsic.datatype, init, is_arg,
+                                         list(pre) + self._dims(dt.shape, name)))
+                continue
+            d = {"name": name, "ty": _ty(dt), "dims": list(pre), "init": init, "arg": is_arg}
             if isinstance(dt, S.ArrayType):
-                for dim in dt.shape:
-                    if not isinstance(dim, S.ArrayType.ArrayBounds):
-                        raise Unsupported("component shape of " + name)
-                    lo, hi = const_int(dim.lower), const_int(dim.upper)
-                    if lo is None or hi is None:
-                        raise Unsupported("non-literal component bound of " + name)
-                    d["dims"].append([lo, hi])
+                d["dims"] = list(pre) + self._dims(dt.shape, name)
             if getattr(comp, "initial_value", None) is not None:
                 raise Unsupported("component initial value")
             res.append(d)
